@@ -69,6 +69,11 @@ class Executor:
         '''
         Largely passing through relevant assignments to the pool they belong to.
         '''
+        for s in suspensions:
+            assert 0 <= s.pool_id < self.num_pools, f"suspension names pool {s.pool_id}, which does not exist"
+        for a in assignments:
+            assert 0 <= a.pool_id < self.num_pools, f"assignment names pool {a.pool_id}, which does not exist"
+
         results: List[ExecutionResult] = []
         for id_ in range(self.num_pools):
             pool_suspensions = [s for s in suspensions if s.pool_id == id_]
